@@ -24,6 +24,7 @@ type Config struct {
 	MaxFanout    int
 	MaxPaths     int64
 	ByteDomains  bool
+	Intervals    bool
 	TrackStores  bool
 	PermuteMaps  bool
 	PermuteRanges int
@@ -99,6 +100,7 @@ type PathResult struct {
 	Foreign   []string
 	Decisions int
 	Steps     int64
+	StubDiverged bool // an uninterpreted conversion's error flag differs from the real function on the model's bytes
 }
 
 // Explorer runs one harness over all paths with a pool of workers.
@@ -124,6 +126,7 @@ type Explorer struct {
 	SolverLongest time.Duration
 	SolverQueries, SolverSat, SolverUnsat, SolverUnknown, SolverErrors int
 	finished  int64
+	StubDiverged int64
 	canon     int
 	violPerID map[string]int
 	Truncated bool
@@ -308,7 +311,10 @@ func (ex *Explorer) record(w *Worker, r *PathResult) {
 			ex.Violations = append(ex.Violations, *r)
 		}
 	}
-	if (r.Outcome == "ok" || r.Outcome == "panic") && len(r.Violations) == 0 {
+	if r.StubDiverged {
+		ex.StubDiverged++
+	}
+	if (r.Outcome == "ok" || r.Outcome == "panic") && len(r.Violations) == 0 && !r.StubDiverged {
 		k := int64(ex.Cfg.SampleEvery)
 		if k <= 0 {
 			k = 1
@@ -447,6 +453,7 @@ func (in *Interp) RunPath(fn *ssa.Function, it *WorkItem) (res *PathResult) {
 		}
 		res.Vector = in.vector(p.model)
 		res.Digest = in.digest(p.model)
+		res.StubDiverged = in.stubDiverged(p.model)
 	}
 	for i := range p.violations {
 		// vectors for violations come from their own models
